@@ -76,7 +76,7 @@ def run(ctx):
 
 def race_run(ctx, runs):
     """Re-run the concurrent recorder under the race detector; True if it reports a data race."""
-    exe = os.path.join(BUILD, "vh-race")
+    exe = ctx.exe(race=True)
     env = dict(os.environ)
     env.update(GOENV)
     env["GORACE"] = "halt_on_error=1 exitcode=66"
